@@ -79,6 +79,16 @@ impl<Consumer> Pool<Consumer>
     }
 }
 
+/// Read-only accessors used by the model-checking harness in /verif (never compiled without `--cfg cached_verif`).
+#[cfg(cached_verif)]
+impl<Consumer> Pool<Consumer>
+    where Consumer: BufferConsumer {
+    /// The key hashes currently sitting in each buffer.
+    pub(crate) fn verif_buffered(&self) -> Vec<Vec<KeyHash>> {
+        self.buffers.iter().map(|buffer| buffer.read().key_hashes.clone()).collect()
+    }
+}
+
 #[cfg(test)]
 mod tests {
     use std::sync::Arc;
